@@ -352,6 +352,19 @@ def gen_history(rng, model, quick):
     return hs
 
 
+def exhaustive(maxlen):
+    """every history up to maxlen calls over a 9-letter alphabet on the atom (stored key a, its alias a', a second key b),
+    each followed by evaluations of a and b."""
+    a, a1, b = (0, 1, 0, 1), (1, 0, 0, 1), (0, 0, 0, 0)
+    alphabet = [("prep", [a]), ("prep", [a, b]), ("fill", [a]), ("compall", 0), ("compall", 1), ("lookup", a1), ("prepelem", a1),
+                ("compelem", b), ("eval", a1, (0, 1, 2))]
+    out = []
+    for n in range(1, maxlen + 1):
+        for w in itertools.product(alphabet, repeat=n):
+            out.append(list(w) + [("eval", a, (0, 0, 0)), ("eval", b, (0, 1, 1))])
+    return out
+
+
 def signature(hs, res):
     kinds = [o[0] for o in hs]
     bulk = sorted(set("split" if o[1] else "nosplit" for o in hs if o[0] == "compall"))
@@ -434,12 +447,14 @@ def run(chk):
 
     stats = {"histories": 0, "agree_unrepaired": 0, "agree_repaired": 0, "agree_neither": 0, "property_violations": 0}
     disagreements, violating = [], []
-    nrand = {"hubbard-atom": 120 if quick else 600, "two-site": 60 if quick else 300}
+    nrand = {"hubbard-atom": 120 if quick else 1500, "two-site": 60 if quick else 800}
     for model in MODELS:
         name, scen, nidx, sub = model
         runner = Runner(env, model)
         hists = [h for h in CORPUS] if name == CANON_MODEL else [[("prep", [(0, 2, 0, 2)]), ("prep", [(0, 2, 0, 2), (1, 1, 2, 2)]), ("compall", 1),
                                                                  ("eval", (2, 0, 2, 0), (0, 1, 2)), ("eval", (1, 1, 2, 2), (0, 0, 0))]]
+        if name == CANON_MODEL:
+            hists += exhaustive(2 if quick else 3)
         hists += [gen_history(chk.rng, model, quick) for _ in range(nrand[name])]
         try:
             results = runner.run(hists)
@@ -538,10 +553,15 @@ def run(chk):
             chk.violation(CANON_KEY, CANON_WHAT, obj)
         else:
             other = stale + other
-    for (model, hs, res) in other[:4]:
+    seen_what = set()
+    for (model, hs, res) in other[:6]:
         runner = Runner(env, model)
         small = shrink(hs, lambda c: _violates(runner, c))
         r = runner.run([small])[0]
+        what = "; ".join(d for _, d in r["viol"])
+        if what in seen_what or len(seen_what) >= 3:      # the same observation reached through another history
+            continue
+        seen_what.add(what)
         chk.violation("%s: %s" % (model[0], hist_txt(small)), "; ".join(d for _, d in r["viol"]) or "violation not reproduced after shrinking",
                       replay_obj(model, small, r, "see description"))
 
@@ -564,7 +584,7 @@ def run(chk):
     chk.rule = ("histories of fill / prepareAll / computeAll(split|nosplit) / lookup / prepare / compute / evaluate calls: a fixed corpus (incl. the witnesses of "
                 "the *_refuted theorems) plus random histories over quadruples from a small index subset (25% with equal annihilation or creation indices, "
                 "75% of the on-demand and evaluated keys are aliases of keys used before, repeated prepareAll with the same and with other sets, empty set = all "
-                "combinations on the atom); every call's outcome and the full state (both maps, permutations, statuses) compared with the extracted model in both "
+                "combinations on the atom), plus every history of up to 2 (quick) / 3 (thorough) calls over a 9-letter alphabet on the atom; every call's outcome and the full state (both maps, permutations, statuses) compared with the extracted model in both "
                 "variants; a history is non-trivial when it evaluates something; distinct = distinct canonical history text. Direct symmetry cases: quadruples x "
                 "triples on freshly constructed objects, non-trivial when the value is non-zero")
 
@@ -611,7 +631,8 @@ def replay(chk, path):
             k, op_line(op), g, a["R"], b0["R"], b1["R"], a.get("D")))
     chk.case(rp["model"] + ": " + hist_txt(hs), "replay", True)
     if res["viol"]:
-        chk.violation(r.get("key", hist_txt(hs)), "; ".join(d for _, d in res["viol"]), replay_obj(model, hs, res, rp.get("expected")))
+        key = r.get("key", hist_txt(hs))
+        chk.violation(key, CANON_WHAT if key == CANON_KEY else "; ".join(d for _, d in res["viol"]), replay_obj(model, hs, res, rp.get("expected")))
     else:
         print("no violation of the property on this history")
     return chk.finish()
